@@ -476,3 +476,47 @@ Proof.
     by (destruct pn; reflexivity).
   rewrite json_map_roundtrip by assumption. reflexivity.
 Qed.
+
+(** ** into a target that already holds entries: merged by key *)
+Lemma jread_map_body_gen f l more m :
+  N.of_nat (length l) < two64 ->
+  Forall (fun kx => len (jenc_kv (fst kx) (snd kx)) < two64 /\
+                    jread_kv f true (jenc_kv (fst kx) (snd kx)) 0 [] 0 JNil
+                    = Ok (fst kx, snd kx, len (jenc_kv (fst kx) (snd kx)))) l ->
+  jread_map (S f) (jmap_body l ++ more) m
+  = Ok (fold_left (fun m kx => assoc_set (fst kx) (snd kx) m) l m, len (jmap_body l)).
+Proof.
+  intros Hc Hall. cbn [jread_map]. unfold jmap_body. rewrite <- app_assoc, read_append_varuint by exact Hc.
+  pose proof (append_varuint_length_bounds (N.of_nat (length l))) as Hb.
+  replace (Z.of_N (len (append_varuint (N.of_nat (length l)))) =? 0)%Z with false by (symmetry; apply Z.eqb_neq; lia).
+  replace (Z.of_N (len (append_varuint (N.of_nat (length l)))) <? 0)%Z with false by (symmetry; apply Z.ltb_ge; lia).
+  rewrite N2Z.id. pose proof (frames_length (fun kx : bytes * jv => jenc_kv (fst kx) (snd kx)) l) as Hfl.
+  replace (len (append_varuint (N.of_nat (length l)) ++ flat_map (fun kx => lenframe (jenc_kv (fst kx) (snd kx))) l ++ more)
+           - len (append_varuint (N.of_nat (length l))) <? N.of_nat (length l)) with false
+    by (symmetry; apply N.ltb_ge; rewrite !len_app; unfold len; lia).
+  rewrite go_drop_app. cbn [bind].
+  rewrite jentries_list.
+  - rewrite len_app. reflexivity.
+  - exact Hall.
+  - rewrite !app_length. lia.
+Qed.
+
+Theorem json_map_merge : forall l more m, jfits (JObj l) ->
+  (fix all (l : list (bytes * jv)) : Prop := match l with [] => True | kx :: r => wfj (snd kx) /\ all r end) l ->
+  jread_map (jfuel (jmap_body l ++ more)) (jmap_body l ++ more) m
+  = Ok (fold_left (fun m kx => assoc_set (fst kx) (snd kx) m) l m, len (jmap_body l)).
+Proof.
+  intros l more m Hf Hw. pose proof Hf as [Hc Hall]. apply jobj_items in Hall. apply wfj_obj_items in Hw.
+  unfold jfuel. replace (2 * length (jmap_body l ++ more) + 2)%nat with (S (S (2 * length (jmap_body l ++ more)))) by lia.
+  apply jread_map_body_gen; [exact Hc|].
+  rewrite Forall_forall in *. intros kx Hx. destruct (Hall kx Hx) as (Hjx & Hk & Hlx). split; [exact Hlx|].
+  unfold jenc_kv. cbn [app].
+  replace (10 :: append_varuint (len (fst kx)) ++ fst kx ++ jenc_value (snd kx))
+    with (10 :: lenframe (fst kx) ++ jenc_value (snd kx)) by (unfold lenframe; rewrite <- app_assoc; reflexivity).
+  rewrite step_key by exact Hk.
+  rewrite (json_value_roundtrip (snd kx) Hjx (Hw kx Hx)).
+  - f_equal. f_equal. rewrite !len_cons, !len_app. unfold lenframe. rewrite len_app. lia.
+  - pose proof (jh_len (snd kx)).
+    pose proof (in_flat_len (fun kx : bytes * jv => jenc_kv (fst kx) (snd kx)) l kx Hx) as Hl. cbv beta in Hl.
+    unfold jenc_kv in Hl. unfold jmap_body. rewrite !app_length in *. unfold jenc_kv. lia.
+Qed.
